@@ -12,6 +12,14 @@ static inline cstring *cstring__lit(const char *p) { g_lit.len = 5; g_lit.id = _
   static inline T *opt_##N##__value(struct opt_##N *o) { __CPROVER_assert(o->has, "optional: value()/operator* on an empty optional"); return &o->val; }
 
 /* abstract sequence: size, one watched element (index wi, value wv); any other element is arbitrary */
+/* add_* units observe what is stored: the last pushed value and the number of pushes per sequence type */
+#ifdef CAPTURE_PUSH
+#define PUSH_CAPTURE_DECL(P, N, T) T P##N##__last; unsigned long P##N##__pushes;
+#define PUSH_CAPTURE(P, N, v) P##N##__last = *(v); P##N##__pushes++;
+#else
+#define PUSH_CAPTURE_DECL(P, N, T)
+#define PUSH_CAPTURE(P, N, v)
+#endif
 /* SEQ_INV_<N>(p): representation invariant of every stored element (default: none); assumed for elements read, asserted for elements stored */
 #define DECL_SEQ_(P, N, T) struct P##N { unsigned long n; unsigned long wi; T wv; }; \
   T P##N##__cur; /* scratch: the arbitrary element last handed out (a separate object, so element pointers have one target each) */ \
@@ -19,8 +27,9 @@ static inline cstring *cstring__lit(const char *p) { g_lit.len = 5; g_lit.id = _
   static inline T *P##N##__at(struct P##N *s, unsigned long i) { \
     __CPROVER_assert(i < s->n, "sequence element access in bounds"); \
     if (i == s->wi) return &s->wv; T fresh; __CPROVER_assume(SEQ_INV_##N(&fresh)); P##N##__cur = fresh; return &P##N##__cur; } \
+  PUSH_CAPTURE_DECL(P, N, T) \
   static inline void P##N##__push_back(struct P##N *s, T *v) { if (g_exc) return; \
-    __CPROVER_assert(SEQ_INV_##N(v), "stored element satisfies the sequence's element invariant"); if (s->n == s->wi) s->wv = *v; s->n++; } \
+    __CPROVER_assert(SEQ_INV_##N(v), "stored element satisfies the sequence's element invariant"); PUSH_CAPTURE(P, N, v) if (s->n == s->wi) s->wv = *v; s->n++; } \
   static inline void P##N##__clear(struct P##N *s) { s->n = 0; } \
   static inline void P##N##__assign(struct P##N *d, struct P##N *s) { *d = *s; }
 #define DECL_SEQ(N, T) DECL_SEQ_(seq_, N, T) \
